@@ -249,7 +249,7 @@ func c12r2(r *R) {
 	// fallback to 500 when no classifier matched
 	fb := false
 	eachInstr(er, func(ins ssa.Instruction) {
-		if phi, ok := ins.(*ssa.Phi); ok && phi.Comment == "code" {
+		if phi, ok := ins.(*ssa.Phi); ok { // the status code variable, whatever it is called: the phi that can be the literal 500
 			for i, e := range phi.Edges {
 				if v, ok := constInt(e); ok && v == 500 {
 					fb = guardedBy(phi.Block().Preds[i], func(g string) bool { return strings.HasSuffix(g, " == 0)") && !strings.HasPrefix(g, "!") })
@@ -292,7 +292,7 @@ func c12r4(r *R) {
 		}
 		if bo.Op.String() == "+" {
 			if v, ok := constInt(bo.Y); ok && v == 1 {
-				if phi, ok := bo.X.(*ssa.Phi); ok && phi.Comment == "errorsN" {
+				if _, ok := bo.X.(*ssa.Phi); ok { // the loop-carried error counter, whatever it is called
 					inc = bo
 				}
 			}
